@@ -94,8 +94,10 @@ func c06R1(c *Ctx) {
 // RefOrRepo names an in-tree eth function.
 func RefOrRepo(rel string) string { return "eth/" + rel }
 
-func c06R2(c *Ctx) {
-	rule := c.R.Rule("R2", "sibling commit paths agree: the fast-sync executor closure installed by assembleStateMachine and raft's BlockChainFSM.Apply perform SaveBlock ≺ ApplyBlock ≺ State.Save, Save only after ApplyBlock returned nil, on the state object they publish", 6)
+func c06R2(c *Ctx) { c06R2as(c, "R2") }
+
+func c06R2as(c *Ctx, id string) {
+	rule := c.R.Rule(id, "sibling commit paths agree: the fast-sync executor closure installed by assembleStateMachine and raft's BlockChainFSM.Apply perform SaveBlock ≺ ApplyBlock ≺ State.Save, Save only after ApplyBlock returned nil, on the state object they publish", 6)
 	// fast-sync executor: the closure passed to SetBlockExecuter
 	var exec *cfgx.Fn
 	if f := c.Anchor(rule, "gemmill.(*Angine).assembleStateMachine"); f != nil {
